@@ -41,6 +41,15 @@ def gen_prog(rng):
             c, k = rng.choice(sorted(alive))
             prog.append(['del', c, k])
             alive.discard((c, k))
+            if rng.random() < 0.6:
+                # an activity about the entity whose deletion is pending, flushed already, or committed earlier
+                prog += rng.choice([[], [['flush']], [['flush']], [['commit']]])
+                tgt = rng.choice(sorted(alive)) if alive and rng.random() < 0.3 else None
+                if rng.random() < 0.7:
+                    prog.append(['activity', 'delete', [c, k], list(tgt) if tgt else None])
+                elif alive:
+                    o2 = rng.choice(sorted(alive))
+                    prog.append(['activity', 'untag', list(o2), [c, k]])
         elif r < 0.62:
             prog.append(['add', 3, rng.choice([1, 2]), {'a': rng.choice([0, 1])}])     # non-versioned only
         elif r < 0.68:
@@ -67,7 +76,11 @@ def corpus():
                                 ['activity', 'v', [0, 1], None], ['commit'], ['set', 0, 1, {'a': 0}], ['flush'],
                                 ['actset', 0, 'w'], ['set', 0, 1, {'a': 1}], ['commit'], ['del', 0, 1], ['commit']]),
             dict(cfg=cfg, prog=[['add', 0, 1, {'a': 1}], ['flush'], ['activity', 'create', [0, 1], None], ['commit'],
-                                ['set', 0, 1, {'a': 2}], ['commit'], ['add', 3, 1, {'a': 0}], ['commit']])]
+                                ['set', 0, 1, {'a': 2}], ['commit'], ['add', 3, 1, {'a': 0}], ['commit']]),
+            # activities about an entity whose deletion was flushed earlier in the transaction / committed before
+            dict(cfg=cfg, prog=[['add', 0, 1, {'a': 1}], ['add', 0, 2, {'a': 1}], ['commit'], ['del', 0, 1], ['flush'],
+                                ['activity', 'delete', [0, 1], None], ['commit'],
+                                ['activity', 'purge', [0, 1], None], ['activity', 'untag', [0, 2], [0, 1]], ['commit']])]
 
 
 def nontrivial(case, obs):
